@@ -11,8 +11,8 @@ PROP = dict(
     theorems=[T + n for n in ['load_core_coherent', 'load_subs', 'pub_keeps_counter_coherent', 'refused_pub_changes_nothing', 'offline_set_diverges', 'failed_save_diverges', 'read_note_diverges']],
     streams=[world.world_stream("C08")],
     seeds=dict(quick=1, thorough=4),
-    rule="random histories of 30-120 requests per case (400 cases quick, 600 thorough per seed, every fourth a clause scenario with random parameters) over 4 users, 7 sessions (two per user, "
-         "one background, one anonymous, one root acting for others) and up to 3 group topics, a third of the cases with one injected "
+    rule="random histories of 30-120 requests per case (420 cases quick, 600 thorough per seed, every third a clause scenario with random parameters) over 4 users, 7 sessions (two per user, "
+         "one background, one anonymous, one root acting for others) up to 3 group topics and the peer-to-peer topics between the users, a third of the cases with one injected "
          "store failure per request, a third with crash points and restarts; non-trivial = every request line",
     assumptions=world.WORLD_ASSUMPTIONS,
     trusted=world.WORLD_TRUSTED,
